@@ -43,6 +43,40 @@ class Node:
         return "<%s B%d.%d %s>" % (self.fn.name, self.bid, self.idx, self.text()[:50])
 
 
+_COMPOUND = {"+", "-", "*", "/", "%", "<<", ">>", "&", "|", "^"}
+_COMMUTES = {"+", "*", "&", "|", "^"}
+
+
+def _normalise_stores(raw):
+    """`x = x op e` (and `x = e op x` for commutative op) is recorded as the compound store `x op= e`: one spelling
+    for read-modify-write updates.  The full right-hand side stays available under "rhs0"."""
+    if raw.get("_ns"):
+        return
+    raw["_ns"] = True
+    for b in raw.get("blocks", []):
+        for ev in b.get("ev", []):
+            if ev.get("e") != "S" or ev.get("o") != "=" or ev.get("decl") or not isinstance(ev.get("rhs"), dict):
+                continue
+            r = ev["rhs"]       # no look through casts: `p = (T *)((char *)p + n)` is not `p += n`
+            if not isinstance(r, dict) or r.get("k") != "b" or r.get("o") not in _COMPOUND:
+                continue
+            lp = T.path(ev["lhs"])
+            if not lp or T.calls(ev["lhs"]):
+                continue
+            l, rr = r.get("l"), r.get("r")
+            def same(x):
+                return isinstance(x, dict) and x.get("k") != "cast" and T.path(x) == lp and T.pp(x) == T.pp(ev["lhs"])
+            if same(l):
+                other = rr
+            elif r["o"] in _COMMUTES and same(rr):
+                other = l
+            else:
+                continue
+            ev["rhs0"] = ev["rhs"]
+            ev["rhs"] = other
+            ev["o"] = r["o"] + "="
+
+
 class Fn:
     def __init__(self, raw, uid):
         self.raw = raw
@@ -53,6 +87,7 @@ class Fn:
         self.static = raw.get("static", False)
         self.params = [p["n"] for p in raw.get("params", [])]
         self.blocks = {b["id"]: b for b in raw.get("blocks", [])}
+        _normalise_stores(raw)
         self._thread_logical_joins()
         self.entry = raw.get("entry")
         self.exit = raw.get("exit")
@@ -396,6 +431,7 @@ INLINE_MULTI_SITES = 3
 INLINE_MULTI_BLOCKS = 14
 import os as _os
 INLINE_HELPERS = _os.environ.get("VERIF_NO_INLINE") is None
+THREAD_RETURNS = _os.environ.get("VERIF_NO_THREAD") is None
 
 
 def _known_names():
@@ -567,12 +603,67 @@ def _splice(raw_a, raw_h):
         B2["t"] = t2
     if B.get("nr"):
         B2["nr"] = B["nr"]
+    # Return-value threading: `if (err) return err;` in the helper followed by `err = helper(); if (err) ...` in the
+    # caller is one decision, not two.  A return whose value is known to be zero / non-zero at that point (a constant,
+    # or the variable just tested on the only edge into the returning block) continues in a copy of the caller's
+    # continuation block whose test on the returned value is already decided.
+    extra = []
+    t2 = B2.get("t")
+    if THREAD_RETURNS and t2 and isinstance(t2.get("c"), dict) and t2.get("k") != "switch" and len(B2.get("s", [])) == 2:
+        atom2, pos2 = T.norm_cond(t2["c"])
+        q = T.path(atom2) if isinstance(atom2, dict) and atom2.get("k") == "v" else None
+        tested = False
+        if q == retvar["n"]:
+            tested = True
+        elif q:
+            st = [ev for ev in B2["ev"] if ev["e"] == "S" and T.path(ev["lhs"]) == q]
+            if st and st[-1].get("o") == "=" and isinstance(T.strip(st[-1].get("rhs")), dict) and \
+                    T.strip(st[-1]["rhs"]).get("k") == "v" and T.strip(st[-1]["rhs"]).get("n") == retvar["n"]:
+                tested = True
+        if tested:
+            hpred = {}
+            for hb in hblocks:
+                for idx, s_ in enumerate(hb.get("s", [])):
+                    hpred.setdefault(s_, []).append((hb, idx))
+            copies = {}
+            byid = {nb["id"]: nb for nb in newh}
+            for hb in hblocks:
+                rets = [ev for ev in hb.get("ev", []) if ev["e"] == "R" and isinstance(ev.get("x"), dict)]
+                if hb["id"] == hexit or len(rets) != 1 or hb.get("ev", [])[-1] is not rets[0]:
+                    continue
+                rx = T.strip(rets[0]["x"])
+                nonzero = None
+                if T.const(rx) is not None:
+                    nonzero = T.const(rx) != 0
+                elif isinstance(rx, dict) and rx.get("k") == "v" and len(hb.get("ev", [])) == 1:
+                    ps = hpred.get(hb["id"], [])
+                    if len(ps) == 1:
+                        pb, idx = ps[0]
+                        pt = pb.get("t")
+                        if pt and isinstance(pt.get("c"), dict) and pt.get("k") != "switch" and len(pb.get("s", [])) == 2:
+                            a1, p1 = T.norm_cond(pt["c"])
+                            if isinstance(a1, dict) and a1.get("k") == "v" and a1.get("n") == rx.get("n"):
+                                nonzero = (idx == 0) == p1
+                if nonzero is None:
+                    continue
+                if nonzero not in copies:
+                    cp = copy.deepcopy(B2)
+                    cp["id"] = k
+                    k += 1
+                    truth = nonzero == pos2
+                    # the test stays (the value analysis learns from the edge taken); the other edge is dead
+                    cp["s"] = [B2["s"][0], -1] if truth else [-1, B2["s"][1]]
+                    copies[nonzero] = cp
+                    extra.append(cp)
+                nb = byid.get(idmap[hb["id"]])
+                if nb is not None:
+                    nb["s"] = [copies[nonzero]["id"] if s_ == b2id else s_ for s_ in nb.get("s", [])]
     B["ev"] = B["ev"][:i + 1] + pre
     B["s"] = [idmap[raw_h["entry"]]]
     B.pop("t", None)
     B.pop("nr", None)
     out = dict(raw_a)
-    out["blocks"] = blocks + newh + [B2]
+    out["blocks"] = blocks + newh + [B2] + extra
     out["absorbed"] = list(raw_a.get("absorbed", [])) + [hname] + list(raw_h.get("absorbed", []))
     return out
 
